@@ -14,7 +14,8 @@ TRUSTED_BASE = [
 ]
 ASSUMPTIONS = [
     "conservation of URIs under re-homing rests on C03a; the multi-member membership path is not claimed (as in C05)",
-    "add_bundle of a loose ProvBundle object re-parents that object (documented sharing, not claimed): only documents are attached",
+    "add_bundle of a ProvBundle object re-parents that object (documented sharing): the model attaches documents only; bundle "
+    "objects (named, unnamed, named like an attached bundle) are judged on the implementation alone by fixed scenarios",
 ]
 
 
@@ -156,7 +157,99 @@ def fixed_programs():
     return out
 
 
+def bundle_object_scenarios():
+    """add_bundle with a ProvBundle object (the model attaches documents only): the bundle — whatever identifier it
+    carried — ends up under the requested identifier with all its records; a duplicate requested identifier, and a
+    missing one for an unnamed bundle, are refused without changing the document.  Judged on the implementation alone."""
+    import prov.model as M
+    from prov.identifier import Namespace
+    EXU = "http://example.org/"
+    ex = Namespace("ex", EXU)
+    fails = []
+    n = 0
+
+    def fresh_doc():
+        d = M.ProvDocument()
+        d.add_namespace("ex", EXU)
+        d.entity("ex:top")
+        return d
+
+    def named_bundle(name, k):
+        b = M.ProvBundle(identifier=ex[name]) if name else M.ProvBundle()
+        b.add_namespace("ex", EXU)
+        for i in range(k):
+            b.entity("ex:e%d" % i, {"ex:k": i})
+        b.used("ex:a", "ex:e0")
+        return b
+
+    for requested in (ex["requested"], "ex:requested"):
+        for own in ("original", "requested", None):
+            n += 1
+            d = fresh_doc()
+            b = named_bundle(own, 3)
+            want = strict_cont(b)
+            try:
+                d.add_bundle(b, requested)
+            except Exception as e:
+                fails.append({"what": "add_bundle(bundle, identifier) raised", "own": own, "exc": repr(e)[:200]})
+                continue
+            ids = [x.identifier.uri for x in d.bundles]
+            if ids != [EXU + "requested"]:
+                fails.append({"what": "add_bundle(bundle, identifier) did not attach the bundle under the requested identifier",
+                              "own_identifier": own, "got": ids})
+                continue
+            if strict_cont(list(d.bundles)[0]) != want:
+                fails.append({"what": "add_bundle(bundle, identifier) lost or changed records", "own_identifier": own})
+            # a second bundle under the same requested identifier is refused and changes nothing
+            n += 1
+            before = observable_doc(d)
+            try:
+                d.add_bundle(named_bundle("another", 1), requested)
+                fails.append({"what": "add_bundle accepted a duplicate requested identifier", "own_identifier": own,
+                              "bundles": [x.identifier.uri for x in d.bundles]})
+            except M.ProvException:
+                if observable_doc(d) != before:
+                    fails.append({"what": "add_bundle() raised but changed the document", "own_identifier": own})
+            # a bundle that carries the name already in use goes in under another requested identifier
+            n += 1
+            try:
+                d.add_bundle(named_bundle("requested", 2), ex["second"])
+                ids = sorted(x.identifier.uri for x in d.bundles)
+                if ids != [EXU + "requested", EXU + "second"]:
+                    fails.append({"what": "a bundle named like an attached one was not attached under the other requested identifier",
+                                  "got": ids})
+            except Exception as e:
+                fails.append({"what": "add_bundle(bundle named like an attached one, other identifier) raised", "exc": repr(e)[:200]})
+    # no identifier anywhere
+    n += 1
+    d = fresh_doc()
+    before = observable_doc(d)
+    try:
+        d.add_bundle(named_bundle(None, 1))
+        fails.append({"what": "add_bundle accepted a bundle without any identifier"})
+    except M.ProvException:
+        if observable_doc(d) != before:
+            fails.append({"what": "add_bundle() raised but changed the document"})
+    # the bundle's own identifier is used when none is requested
+    n += 1
+    d = fresh_doc()
+    d.add_bundle(named_bundle("own", 2))
+    if [x.identifier.uri for x in d.bundles] != [EXU + "own"]:
+        fails.append({"what": "add_bundle(bundle) did not use the bundle's own identifier"})
+    return n, fails
+
+
 def run(tier, seed, log, model_runs=True, enlarged=False):
+    res = run_programs(tier, seed, log, model_runs, enlarged)
+    n, fails = bundle_object_scenarios()
+    res["coverage"]["bundle_object_scenarios"] = n
+    log("bundle-object scenarios: %d, %d failures" % (n, len(fails)))
+    for f in fails[:3]:
+        res["violations"].append({"kind": "failing-input", "failure": f, "program": None})
+    return res
+
+
+def run_programs(tier, seed, log, model_runs=True, enlarged=False):
     return worldprop.run(PROP, tier, seed, log, model_runs, enlarged, C09Oracle, ["merge"],
                          n_quick=200, n_thorough=3000, nontrivial=nontrivial,
                          ops_range_quick=(8, 26), ops_range_thorough=(10, 45),
